@@ -187,7 +187,7 @@ func (g *tgen) attr(el string, ind int) string {
 		if g.oracle {
 			return fmt.Sprintf(`{ A("%s")... }`, g.key())
 		}
-		return "{ attrs... }"
+		return g.r.pick([]string{"{ attrs... }", "{ attrs... }", "{ attrs ... }", "{attrs...}", "{ attrs\n" + g.indent(ind+2) + "... }"})
 	case k == 8:
 		g.note("attr-class")
 		if g.oracle {
